@@ -99,7 +99,7 @@ def size_atom(fn, d, t, ev):
     return None
 
 
-def returning_paths(fn, g, cap=256, unroll=1):
+def returning_paths(fn, g, cap=256, unroll=1, dowhile=True):
     """paths entry -> Return; each loop body is traversed `unroll` times (a back edge beyond that continues at the loop's exits).
     Returns list of block tuples (blocks may repeat when unroll > 1)."""
     dom = g.dom()
@@ -121,7 +121,7 @@ def returning_paths(fn, g, cap=256, unroll=1):
         if lp is not None and len(succs) > 1 and g._straight_from(lp["header"], b, lp):
             inside = [s for s in succs if s in lp["body"]]
             # do-while abstraction on the first traversal; on later traversals both continuing and leaving are possible
-            if inside and visits.get(lp["header"], 1) <= 1:
+            if dowhile and inside and visits.get(lp["header"], 1) <= 1:
                 succs = inside
         for s2 in succs:
             if s2 in dom.get(b, ()):  # back edge to loop header s2
